@@ -229,64 +229,60 @@ namespace Shuttle.AOD
 open Shuttle
 open Shuttle.Gen.ActionTables (Tag)
 
-theorem getLast?_cons_snoc {α : Type} (a : α) (l : List α) (b : α) : (a :: (l ++ [b])).getLast? = some b := by
-  rw [← List.cons_append, List.getLast?_append]; simp
-
 /-- **Transport**: a path that sets the tweezers on `g0`, switches the selected tones on, moves along
-`g0 :: mids ++ [gl]`, switches the same tones off — from a state with nothing active — takes the atoms under the
-selected spots of `g0` to the corresponding spots of `gl` and leaves everything else where it was. -/
+`g0 :: rest` (ending on `gl`), switches the same tones off — from a state with nothing active — takes the atoms
+under the selected spots of `g0` to the corresponding spots of `gl` and leaves everything else where it was. -/
 theorem transport (sites occ : List Site) (xt yt : List Int) (sx sy : Sel) (xs ys : List Int) (ton toff : Tag)
-    (g0 gl : Grid) (mids : List Grid) (f0 fl : Spot → Site)
+    (g0 gl : Grid) (rest : List Grid) (f0 fl : Spot → Site)
     (hton : ton.on = true) (htoff : toff.on = false)
     (hx : select xt sx = some xs) (hy : select yt sy = some ys)
     (hxn : xs.Nodup) (hyn : ys.Nodup) (hxin : ∀ x ∈ xs, x ∈ xt) (hyin : ∀ y ∈ ys, y ∈ yt)
-    (hshape : (g0 :: (mids ++ [gl])).all (shapeOK xt yt) = true)
+    (hshape : (g0 :: rest).all (shapeOK xt yt) = true) (hlast : (g0 :: rest).getLast? = some gl)
     (h0 : ∀ sp ∈ cross xs ys, spotPos xt yt g0 sp = some (f0 sp))
     (hl : ∀ sp ∈ cross xs ys, spotPos xt yt gl sp = some (fl sp))
     (hsrc : ((cross xs ys).map f0).Nodup) (hocc : ∀ sp ∈ cross xs ys, f0 sp ∈ occ)
     (hdst : ((cross xs ys).map fl).Nodup) (hsite : ∀ sp ∈ cross xs ys, fl sp ∈ sites)
     (hvac : ∀ sp ∈ cross xs ys, fl sp ∉ ((cross xs ys).map f0).foldl List.erase occ) :
     playPath sites (State.init occ)
-        ⟨xt, yt, [.way [g0], .sw ton sx sy, .way (g0 :: (mids ++ [gl])), .sw toff sx sy, .way [gl]]⟩
+        ⟨xt, yt, [.way [g0], .sw ton sx sy, .way (g0 :: rest), .sw toff sx sy, .way [gl]]⟩
       = .ok ⟨((cross xs ys).map f0).foldl List.erase occ ++ (cross xs ys).map fl, [], [], []⟩ := by
   have hs0 : shapeOK xt yt g0 = true := by
     simp only [List.all_cons, Bool.and_eq_true] at hshape; exact hshape.1
   have hsl : shapeOK xt yt gl = true := by
-    simp only [List.all_cons, List.all_append, Bool.and_eq_true, List.all_nil, Bool.and_true] at hshape
-    exact hshape.2.2
+    have := List.mem_of_getLast? hlast
+    exact List.all_eq_true.1 hshape gl this
   simp only [playPath, runActions]
   rw [step_way sites xt yt (State.init occ) none g0 g0 [] [] f0 f0 rfl (by simp [hs0]) rfl (by simp) (by simp)]
   simp only
   rw [step_on sites xt yt _ g0 ton hton sx sy xs ys hx hy hxn hyn hxin hyin f0 rfl rfl rfl h0 hsrc hocc]
   simp only
-  rw [step_way sites xt yt _ (some g0) g0 gl (mids ++ [gl]) (cross xs ys) f0 fl rfl hshape (getLast?_cons_snoc _ _ _) h0 hl]
+  rw [step_way sites xt yt _ (some g0) g0 gl rest (cross xs ys) f0 fl rfl hshape hlast h0 hl]
   simp only
   rw [step_off sites xt yt _ gl toff htoff sx sy xs ys hx hy fl rfl rfl rfl hdst hsite hvac]
   simp only
   rw [step_way sites xt yt _ (some gl) gl gl [] [] fl fl rfl (by simp [hsl]) rfl (by simp) (by simp)]
   simp [heldAt, State.init]
 
-/-- **Round trip** (the CZ move's shape): a forward path that picks and carries without releasing, then the
-time-reversed path that carries back and releases: every atom is back where it started, nothing else moved. -/
+/-- **Round trip** (the CZ move's shape): a forward path that picks at `g0` and carries to `ge` without releasing,
+then a return path that starts at `ge`, carries back to `g0` and releases: every atom is back where it started,
+nothing else moved. -/
 theorem round_trip (sites occ : List Site) (xt yt : List Int) (sx sy : Sel) (xs ys : List Int) (ton toff : Tag)
-    (g0 ge : Grid) (mids : List Grid) (f0 fe : Spot → Site)
+    (g0 ge : Grid) (rest back : List Grid) (f0 fe : Spot → Site)
     (hton : ton.on = true) (htoff : toff.on = false)
     (hx : select xt sx = some xs) (hy : select yt sy = some ys)
     (hxn : xs.Nodup) (hyn : ys.Nodup) (hxin : ∀ x ∈ xs, x ∈ xt) (hyin : ∀ y ∈ ys, y ∈ yt)
-    (hshape : (g0 :: (mids ++ [ge])).all (shapeOK xt yt) = true)
+    (hshape : (g0 :: rest).all (shapeOK xt yt) = true) (hlast : (g0 :: rest).getLast? = some ge)
+    (hshape' : (ge :: back).all (shapeOK xt yt) = true) (hlast' : (ge :: back).getLast? = some g0)
     (h0 : ∀ sp ∈ cross xs ys, spotPos xt yt g0 sp = some (f0 sp))
     (he : ∀ sp ∈ cross xs ys, spotPos xt yt ge sp = some (fe sp))
     (hsrc : ((cross xs ys).map f0).Nodup) (hocc : ∀ sp ∈ cross xs ys, f0 sp ∈ occ)
     (hsite : ∀ sp ∈ cross xs ys, f0 sp ∈ sites) (hoccnd : occ.Nodup) :
     playAll sites (State.init occ)
-        [⟨xt, yt, [.way [g0], .sw ton sx sy, .way (g0 :: (mids ++ [ge]))]⟩,
-         ⟨xt, yt, [.way (ge :: (mids.reverse ++ [g0])), .sw toff sx sy, .way [g0]]⟩]
+        [⟨xt, yt, [.way [g0], .sw ton sx sy, .way (g0 :: rest)]⟩,
+         ⟨xt, yt, [.way (ge :: back), .sw toff sx sy, .way [g0]]⟩]
       = .ok ⟨((cross xs ys).map f0).foldl List.erase occ ++ (cross xs ys).map f0, [], [], []⟩ := by
   have hs0 : shapeOK xt yt g0 = true := by
     simp only [List.all_cons, Bool.and_eq_true] at hshape; exact hshape.1
-  have hshape' : (ge :: (mids.reverse ++ [g0])).all (shapeOK xt yt) = true := by
-    simp only [List.all_cons, List.all_append, Bool.and_eq_true, List.all_nil, Bool.and_true, List.all_reverse] at hshape ⊢
-    exact ⟨hshape.2.2, hshape.2.1, hshape.1⟩
   have hvac : ∀ sp ∈ cross xs ys, f0 sp ∉ ((cross xs ys).map f0).foldl List.erase occ := by
     intro sp hsp
     exact foldl_erase_not_mem _ _ _ hoccnd (List.mem_map_of_mem hsp)
@@ -295,13 +291,43 @@ theorem round_trip (sites occ : List Site) (xt yt : List Int) (sx sy : Sel) (xs 
   simp only
   rw [step_on sites xt yt _ g0 ton hton sx sy xs ys hx hy hxn hyn hxin hyin f0 rfl rfl rfl h0 hsrc hocc]
   simp only
-  rw [step_way sites xt yt _ (some g0) g0 ge (mids ++ [ge]) (cross xs ys) f0 fe rfl hshape (getLast?_cons_snoc _ _ _) h0 he]
+  rw [step_way sites xt yt _ (some g0) g0 ge rest (cross xs ys) f0 fe rfl hshape hlast h0 he]
   simp only
-  rw [step_way sites xt yt _ none ge g0 (mids.reverse ++ [g0]) (cross xs ys) fe f0 rfl hshape' (getLast?_cons_snoc _ _ _) he h0]
+  rw [step_way sites xt yt _ none ge g0 back (cross xs ys) fe f0 rfl hshape' hlast' he h0]
   simp only
   rw [step_off sites xt yt _ g0 toff htoff sx sy xs ys hx hy f0 rfl rfl rfl hsrc hsite hvac]
   simp only
   rw [step_way sites xt yt _ (some g0) g0 g0 [] [] f0 f0 rfl (by simp [hs0]) rfl (by simp) (by simp)]
   simp [heldAt, State.init]
+
+/-- after a round trip the occupied sites are the same set, and still without repetition -/
+theorem erase_then_append_perm (occ ps : List Site) (hn : occ.Nodup) (hps : ps.Nodup) (hsub : ∀ p ∈ ps, p ∈ occ) :
+    (∀ q, q ∈ ps.foldl List.erase occ ++ ps ↔ q ∈ occ) ∧ (ps.foldl List.erase occ ++ ps).Nodup := by
+  have hsubset : ∀ (l o : List Site) (q : Site), q ∈ l.foldl List.erase o → q ∈ o := by
+    intro l
+    induction l with
+    | nil => intro o q h; exact h
+    | cons a l ihl => intro o q h; exact List.mem_of_mem_erase (ihl _ _ h)
+  have hnd : ∀ (l o : List Site), o.Nodup → (l.foldl List.erase o).Nodup := by
+    intro l
+    induction l with
+    | nil => intro o h; exact h
+    | cons a l ihl => intro o h; exact ihl _ (h.erase a)
+  constructor
+  · intro q
+    simp only [List.mem_append]
+    constructor
+    · rintro (h | h)
+      · exact hsubset _ _ _ h
+      · exact hsub q h
+    · intro h
+      by_cases hq : q ∈ ps
+      · exact .inr hq
+      · exact .inl (foldl_erase_mem_of_not_mem q ps occ h hq)
+  · rw [List.nodup_append]
+    refine ⟨hnd _ _ hn, hps, ?_⟩
+    intro a ha b hb hab
+    subst hab
+    exact foldl_erase_not_mem a ps occ hn hb ha
 
 end Shuttle.AOD
